@@ -21,4 +21,5 @@ EXTRAS = [
     lambda rep, fb, tier: forward.rule_same_name(rep, fb, select=lambda f: "reduce" in f["name"], floor=50, name="FORWARD.same-name:reduce"),
     lambda rep, fb, tier: __import__("vf.rules.methodrules", fromlist=["x"]).rule_index_content(rep, fb),
     lambda rep, fb, tier: __import__("vf.rules.methodrules", fromlist=["x"]).rule_option_shifts(rep, fb),
+    lambda rep, fb, tier: __import__("vf.rules.lints", fromlist=["x"]).rule_dtype_case(rep, fb),
 ]
